@@ -185,13 +185,13 @@ Qed.
 Lemma add_raw a b : canon a -> canon b -> bfe_add a b = (a + b) mod P /\ bfe_add_ok a b = true.
 Proof.
   intros Ha Hb. unfold bfe_add, bfe_add_ok, canon, P in *. word_unfold.
-  destruct (a <? (18446744069414584321 - b) mod 18446744073709551616) eqn:E; cbn [fst snd]; split; lia.
+  repeat match goal with |- context [if ?c then _ else _] => destruct c eqn:? end; cbn [fst snd]; split; lia.
 Qed.
 
 Lemma sub_raw a b : canon a -> canon b -> bfe_sub a b = (a - b) mod P /\ bfe_sub_ok a b = true.
 Proof.
   intros Ha Hb. unfold bfe_sub, bfe_sub_ok, canon, P in *. word_unfold.
-  destruct (a <? b) eqn:E; cbn [fst snd]; split; lia.
+  repeat match goal with |- context [if ?c then _ else _] => destruct c eqn:? end; cbn [fst snd]; split; lia.
 Qed.
 
 Theorem add_spec a b : canon a -> canon b ->
